@@ -179,6 +179,33 @@ pub fn check_digest(t: &dyn Td, w_min: f64, r: &mut FastRng, st: &mut Stats) -> 
     Ok(())
 }
 
+/// the first read after inserts, another kind of read, then the first read again: bit-identical
+fn first_read_repeatable(t: &dyn Td, r: &mut FastRng) -> Result<(), (String, String)> {
+    let (mn, mx) = (t.min(), t.max());
+    let x0 = mn + (mx - mn) * r.f64();
+    let q0 = r.f64();
+    match r.below(3) {
+        0 => {
+            let a = t.cdf(x0);
+            let _ = t.quantile(q0);
+            let b = t.cdf(x0);
+            if a.to_bits() != b.to_bits() {
+                return Err(("C15/repeated-read-differs/cdf-first".into(), format!("cdf({:e}) returned {:e} as the first read after inserts and {:e} after an intervening quantile()", x0, a, b)));
+            }
+        }
+        1 => {
+            let a = t.quantile(q0);
+            let _ = t.cdf(x0);
+            let b = t.quantile(q0);
+            if a.to_bits() != b.to_bits() {
+                return Err(("C15/repeated-read-differs/quantile-first".into(), format!("quantile({}) returned {:e} as the first read after inserts and {:e} after an intervening cdf()", q0, a, b)));
+            }
+        }
+        _ => {}
+    }
+    Ok(())
+}
+
 fn check_empty(t: &dyn Td) -> Result<(), (String, String)> {
     for q in [0.0, 0.3, 1.0] {
         if !t.quantile(q).is_nan() {
@@ -232,9 +259,11 @@ fn item(ctx: &Ctx, i: usize, rep: &mut Report) {
                 t.insert_weighted(x, w);
             }
             if k + 1 == mid_check {
+                first_read_repeatable(t.as_ref(), &mut r)?;
                 check_digest(t.as_ref(), w_min, &mut r, &mut st)?;
             }
         }
+        first_read_repeatable(t.as_ref(), &mut r)?;
         check_digest(t.as_ref(), w_min, &mut r, &mut st)?;
         // after clear: empty behaviour again
         let mut c = t.boxed_clone();
